@@ -107,6 +107,19 @@ Qed.
 
 Lemma scale_det : \det B' = (c ^+ 2) ^+ n * \det B.
 Proof. by rewrite scale_B detZ. Qed.
+
+(* the conditional posterior of the linear parameters scales with the unit: A^-1 -> c^-2 A^-1, and if A^-1 a = h then
+   the rescaled system A'^-1 a' = c^-1 h is solved by a' = c a *)
+Variables (Li : 'M[F]_k) (h a : 'cV[F]_k).
+Let Ainv := Li + M^T *m Ci *m M.
+Let Ainv' := (c ^- 2 *: Li) + M^T *m (c ^- 2 *: Ci) *m M.
+Lemma scale_Ainv : Ainv' = c ^- 2 *: Ainv.
+Proof. by rewrite /Ainv' /Ainv scalerDr -scalemxAr -scalemxAl. Qed.
+Lemma scale_a : Ainv *m a = h -> Ainv' *m (c *: a) = c ^-1 *: h.
+Proof.
+move=> Ha; rewrite scale_Ainv -scalemxAl -scalemxAr scalerA Ha.
+congr (_ *: _); rewrite expr2 invfM -mulrA mulVf ?mulr1 //.
+Qed.
 End UnitScaling.
 
 (* ---- simultaneous permutation of the epochs (rows of y, M; rows and columns of C) ---- *)
